@@ -236,7 +236,7 @@ func Clone(c *x509.Certificate) *x509.Certificate {
 }
 
 // ---------------------------------------------------------------------------------------
-// abstraction: parsed certificate -> fact word (see Driver/Pki2Parse.lean)
+// abstraction: parsed certificate -> fact word (parsed by lean/Scion/Model/ChainParse.lean)
 
 // IAFact: "n" = attribute absent, "e" = present but unusable, else the decimal ISD-AS.
 func IAFact(dn pkix.Name) string {
